@@ -64,6 +64,15 @@ def r1_ownership(ctx):
                 if ref is None or not isinstance(ref, Term):
                     continue
                 root = _root(ref)
+                # the result of a *callback parameter* applied to an operand may be that very operand (`lambda act, p: act`, or a fluent method that
+                # returns its receiver when there is nothing to do): an in-place helper on it changes the caller's action
+                if e.kind == "call" and isinstance(root, App) and how.startswith("calls in-place"):
+                    fn_key = vkey(root.fn) if not isinstance(root.fn, str) else root.fn
+                    callable_params = {p_ for p_ in fi.params if p_ not in params and p_ not in ("self", "cls")}
+                    if fn_key in callable_params and any(isinstance(a_, Sym) and a_.name in params for a_ in root.args):
+                        who_ = next(a_.name for a_ in root.args if isinstance(a_, Sym) and a_.name in params)
+                        bad = (e, ref, how + " the result of the caller's callback, which may be", who_)
+                        continue
                 if isinstance(root, Sym) and root.name in params:
                     if e.kind != "call" and ref == root:
                         continue
